@@ -1040,15 +1040,21 @@ class Gen:
                 kinds += ["fresh"]
             if self.p["complex_vars"]:
                 kinds += ["cplx", "cplx", "cplx", "fromcplx"]
+            # the dedicated operations share two slots, so that adding one does not thin out the rest
+            special = []
             if self.p["recall"] and self.p["calls"]:
-                kinds += ["recall"]
+                special += ["recall"]
             if self.p["triangular"] and self.p["arrays"] and self.p["loops"]:
-                kinds += ["tri"]
+                special += ["tri"]
             if self.p["acc_loops"] and self.p["loops"]:
-                kinds += ["accloop"]
+                special += ["accloop"]
             if self.p["guarded_partial"] and self.p["ifexpr"] and self.p["arrays"] and self.p["loops"]:
-                kinds += ["stencil"]
+                special += ["stencil"]
+            if special:
+                kinds += ["special", "special"]
             k = self.choice(kinds)
+            if k == "special":
+                k = self.choice(special)
             if k == "accloop":
                 new = self.op_acc_loop()
             elif k == "stencil":
